@@ -40,6 +40,13 @@ package marbl
 //@   ensures[one-frame-per-header] nFrames == old(nFrames) + 1
 //@   at send 0 before assert[header-frame-length] len(key) < 4294967296 && len(value) < 4294967296 ==> len(sent) == 18 + len(key) + len(value)
 //@   at send 0 before assert[header-frame-type-bytes] sent[0] == HeaderFrame && sent[1] == mt
+//@   at call 0 of append after assert[key-length-bytes] len(key) < 4294967296 ==> len(result) == 14 && result[10] * 16777216 + result[11] * 65536 + result[12] * 256 + result[13] == len(key)
+//@   at call 1 of append after assert[value-length-bytes] len(key) < 4294967296 && len(value) < 4294967296 ==> len(result) == 18 && result[14] * 16777216 + result[15] * 65536 + result[16] * 256 + result[17] == len(value) &&
+//@        result[10] * 16777216 + result[11] * 65536 + result[12] * 256 + result[13] == len(key)
+//@   at call 2 of append after assert[length-fields-kept] len(key) < 4294967296 && len(value) < 4294967296 ==> result[14] * 16777216 + result[15] * 65536 + result[16] * 256 + result[17] == len(value) &&
+//@        result[10] * 16777216 + result[11] * 65536 + result[12] * 256 + result[13] == len(key)
+//@   at send 0 before assert[key-length-field-is-big-endian-key-length] len(key) < 4294967296 && len(value) < 4294967296 ==> sent[10] * 16777216 + sent[11] * 65536 + sent[12] * 256 + sent[13] == len(key)
+//@   at send 0 before assert[value-length-field-is-big-endian-value-length] len(key) < 4294967296 && len(value) < 4294967296 ==> sent[14] * 16777216 + sent[15] * 65536 + sent[16] * 256 + sent[17] == len(value)
 //@   at send 0 after set nFrames = nFrames + 1
 
 //@ func (*Stream).sendData
@@ -51,6 +58,12 @@ package marbl
 //@   at send 0 before assert[data-frame-length] len(sent) == 19 + bl
 //@   at send 0 before assert[data-frame-type-bytes] sent[0] == DataFrame && sent[1] == mt
 //@   at send 0 before assert[data-frame-terminal-byte] sent[14] == ite(terminal, 1, 0)
+//@   at call 0 of append after assert[index-bytes] len(result) == 14 && result[10] * 16777216 + result[11] * 65536 + result[12] * 256 + result[13] == i
+//@   at call 1 of append after assert[index-bytes-kept] len(result) == 15 && result[10] * 16777216 + result[11] * 65536 + result[12] * 256 + result[13] == i
+//@   at call 2 of append after assert[length-bytes] len(result) == 19 && result[15] * 16777216 + result[16] * 65536 + result[17] * 256 + result[18] == bl &&
+//@        result[10] * 16777216 + result[11] * 65536 + result[12] * 256 + result[13] == i
+//@   at send 0 before assert[index-field-is-big-endian-chunk-index] sent[10] * 16777216 + sent[11] * 65536 + sent[12] * 256 + sent[13] == i
+//@   at send 0 before assert[length-field-is-big-endian-data-length] sent[15] * 16777216 + sent[16] * 65536 + sent[17] * 256 + sent[18] == bl
 //@   at send 0 after set nFrames = nFrames + 1
 //@   at entry 0 before set lastDataIdx = i
 //@   at entry 0 before set lastDataTerminal = terminal
